@@ -455,6 +455,11 @@ type c02Result struct {
 // peerClose (non-nil): instead of the program calling Close, the peer sends a Close frame
 // with this payload after the last op (any code, also ones an endpoint must not send, or a
 // malformed payload): the library's answer is a Close frame too, and underlies the same rules.
+// c02PeerEndOp: the opcode of the frame with which the peer ends a program (payload: peerClose). A Close frame,
+// or - the peer misbehaving - a control frame of more than 125 bytes: whatever the endpoint answers is subject to
+// the same rules as everything else it emits (a Pong echoing 126 bytes is an oversize control frame of its own).
+var c02PeerEndOp byte = ref.OpClose
+
 func runC02(t fataler, mode c03Mode, threshold int, ops []outOp, closeCode int, closeReason string, doClose bool, storm bool, peerClose []byte) (string, c02Result) {
 	var res c02Result
 	e := newEnv(t)
@@ -554,9 +559,9 @@ func runC02(t fataler, mode c03Mode, threshold int, ops []outOp, closeCode int, 
 			}
 		}
 		if peerClose != nil {
-			p.send(ref.Frame{Fin: true, Opcode: ref.OpClose, Payload: peerClose})
+			p.send(ref.Frame{Fin: true, Opcode: c02PeerEndOp, Payload: peerClose})
 			if !within(readerDone, 60*time.Second) {
-				opErr = "the reader did not fail within 60 s of the peer's Close frame"
+				opErr = "the reader did not fail within 60 s of the frame that ends the program (the peer's Close frame, or a control frame of more than 125 bytes)"
 			}
 			conn.CloseNow()
 		} else if doClose {
@@ -642,7 +647,7 @@ func runC02(t fataler, mode c03Mode, threshold int, ops []outOp, closeCode int, 
 		return "frames of this connection carry a masking key that an earlier frame already used (twice or more in this program)", res
 	}
 	if len(rep.Closes) == 0 {
-		if peerClose != nil {
+		if peerClose != nil && len(peerClose) <= 125 {
 			return "no Close frame on the wire in answer to the peer's Close frame", res
 		}
 		if !doClose || ref.Sendable(closeCode) && len(closeReason) <= 123 || closeCode == 1005 {
@@ -704,11 +709,21 @@ func TestC02(t *testing.T) {
 				peerClose = append([]byte{byte(pc >> 8), byte(pc)}, c06Reason(prl, pc)...)
 			}
 		}
+		c02PeerEndOp = ref.OpClose
+		if peerClose != nil && rapid.IntRange(0, 3).Draw(rt, "peerEndsWithOversizeControl") == 0 {
+			c02PeerEndOp = rapid.SampledFrom([]byte{ref.OpPing, ref.OpPing, ref.OpPong, ref.OpClose}).Draw(rt, "oversizeOp")
+			peerClose = expand(ckText, uint64(len(ops)), rapid.SampledFrom([]int{126, 127, 128, 129, 200, 4096}).Draw(rt, "oversizeLen"))
+			if c02PeerEndOp == ref.OpClose {
+				copy(peerClose, []byte{0x03, 0xe8})
+			}
+		}
 		var msg string
 		var res c02Result
 		rapid.SyncTest(rt, func(rt *rapid.T) {
 			msg, res = runC02(rt, mode, th, ops, code, reason, doClose, storm, peerClose)
 		})
+		oversizeEnd := c02PeerEndOp
+		c02PeerEndOp = ref.OpClose
 		shape := fmt.Sprintf("%s|%d|%v%d|%v|%v", mode.Name, th, doClose, code, storm, peerClose != nil)
 		for _, o := range ops {
 			shape += fmt.Sprintf("|%s%d/%d/%d", o.Kind, o.CKind, lenClass(o.Len), len(o.Chunks))
@@ -730,6 +745,9 @@ func TestC02(t *testing.T) {
 			if res.CtlAfterFirst > 0 {
 				classes = append(classes, "control-frame-right-after-first-frame-of-compressed-message")
 			}
+		}
+		if peerClose != nil && len(peerClose) > 125 {
+			classes = append(classes, fmt.Sprintf("peer-ends-with-oversize-control-frame:op%x", oversizeEnd))
 		}
 		if peerClose != nil {
 			classes = append(classes, "ended-by-peer-close-frame")
